@@ -30,7 +30,7 @@ REPO = os.environ.get('VERIF_REPO', '/repo')
 COQ = os.path.join(VERIF, 'coq')
 THEORIES = os.path.join(COQ, 'theories')
 WORK = os.path.join(VERIF, '.work')
-EVIDENCE = os.path.join(VERIF, 'evidence')
+EVIDENCE = os.environ.get('VERIF_EVIDENCE_DIR') or os.path.join(VERIF, 'evidence')  # tools/try_seed.sh redirects runs against patched trees
 REPLAY = os.path.join(EVIDENCE, 'replay')
 NCPU = min(16, os.cpu_count() or 4)
 
